@@ -159,7 +159,9 @@ def check_type_tables(prog, r):
             continue
         body = body_of(fn, b)
         stores = set()
-        for ev in fn.blocks[body]['events']:
+        # the case body: everything reachable from its first block without going round the type loop again
+        region = reach_from(fn, [body], stop={sw['id']})
+        for ev in [e for bb in region for e in fn.blocks[bb]['events']]:
             for lhs, how, rhs in written_lvalues(ev):
                 if lhs.get('k') == 'un' and lhs['op'] == '*' and how == '=' and isinstance(rhs, dict):
                     # the extractor drops casts: the width is that of the swap primitive whose result is stored
